@@ -239,7 +239,10 @@ func (r opReg) text() string {
 }
 
 var customChars = []byte{'@', '#', '^', '~', '?'}
-var opSpells = []string{"\u00d7", "\u00f7", "\u00ac", "\u00b1", "\u00a7", "\u00b0", "\u00bb"}
+var opSpells = []string{"\u00d7", "\u00f7", "\u00ac", "\u00b1", "\u00a7", "\u00b0", "\u00bb",
+	// two ASCII characters, the first of which the lexer knows (as an operator, as the member dot, as part of a number):
+	// the plugin's interceptor sees the spelling first wherever a token starts
+	"..", "::", "->", "**", "|>", "%%", "<>", "~>", ".."}
 var opWords = []string{"in", "is", "mod", "isa", "divides", "instanceof", "xor", "implies", "concatenated_with"}
 
 // buildWith registers the operators and returns a builder (fresh lexer builder, token interceptor for the characters).
@@ -295,7 +298,7 @@ func buildWith(regs []opReg, m Mode) (*parser.Builder, error) {
 		lexTypes[ch] = tt
 	}
 	lb.UseTokenInterceptor(func(l *lexer.Lexer, next func() token.Token) token.Token {
-		if l.CurrentChar >= 0x80 {
+		if len(spellTypes) > 0 {
 			for sp, tt := range spellTypes {
 				if l.CurrentChar == sp[0] && l.PeekChar() == sp[1] {
 					tok := l.NewToken(tt, sp)
@@ -780,7 +783,9 @@ var builtinInfix = []token.Type{token.ASSIGN, token.PLUS_ASSIGN, token.MINUS_ASS
 var builtinPostfix = []token.Type{token.INCREMENT, token.DECREMENT}
 
 // names include words the lexer already knows (keywords, operator spellings): a registered name always gets a fresh id
-var typeNames = []string{"op@", "op#", "op^", "op~", "op?", "pow", "null", "if", "function", "true", "let", "return", "+", "ident", "EOF", ""}
+var typeNames = []string{"op@", "op#", "op^", "op~", "op?", "pow", "null", "if", "function", "true", "let", "return", "+", "ident", "EOF", "",
+	// names that differ in letter case or in blanks only are different names
+	"PI", "pi", "Pi", " pi", "pi ", "e", "E", "Null", "IF", " ", "\t", "op@ ", "Op@", "pow\x00", "é", "É"}
 
 // built-in tokens in a role they do NOT have built in: the first registration is accepted, a repeat must be refused
 var builtinFreePrefix = []token.Type{token.PLUS, token.MULTIPLY, token.DIVIDE, token.MODULO, token.LT, token.GT}
